@@ -48,6 +48,8 @@ def gen(rng, tier):
                'seed': rng.randrange(2**31), 'npseed': rng.randrange(2**31), 'alpha': akind, 'mal': mal}
     for case in gen_long(rng, tier):
         yield case
+    for case in gen_wide(rng, tier):
+        yield case
 
 
 def gen_long(rng, tier):
@@ -63,6 +65,31 @@ def gen_long(rng, tier):
         rle = [[[a, L + 50], [b, 300], [a, L + 50]]]
         yield {'trajs': None, 'rle': rle, 'lag': L, 'S': [a], 'F': [b], 'steps': 10000,
                'seed': rng.randrange(2**31), 'npseed': rng.randrange(2**31), 'alpha': 'huge-lag', 'mal': None, 'long': 'huge-lag'}
+
+
+def gen_wide(rng, tier):
+    for _ in range(2 if tier == 'quick' else 10):
+        # more than 64 / 128 states (index arithmetic, masks and tables that depend on the state count)
+        k = rng.choice([66, 70, 131])
+        base = rng.choice([0, 1, -40])
+        labs = [base + 2 * i for i in range(k)] if rng.random() < 0.5 else list(range(base, base + k))
+        t, cur = [], 0
+        for _i in range(rng.randint(2500, 4000)):
+            t.append(labs[cur])
+            r = rng.random()
+            cur = (cur + 1) % k if r < 0.8 else cur if r < 0.9 else rng.randrange(k)
+        S = [labs[rng.randrange(0, 5)]]
+        F = [labs[rng.randrange(64, k)]]
+        if rng.random() < 0.5:
+            S.append(labs[rng.randrange(5, 60)])
+        yield {'trajs': [t + labs], 'lag': 1, 'S': S, 'F': F, 'steps': 2000, 'seed': rng.randrange(2**31),
+               'npseed': rng.randrange(2**31), 'alpha': 'many-states', 'mal': None}
+    for _ in range(1 if tier == 'quick' else 2):
+        # more than 2^20 steps: only what needs no exact coupling to the draws is compared
+        labs = rng.sample([1, 2, 3, 5, 8], 3)
+        t = G.traj(rng, labs, 400, sticky=0.9) + labs
+        yield {'trajs': [t], 'lag': 1, 'S': [labs[0]], 'F': [labs[2]], 'steps': 2**20 + rng.randint(1000, 9000),
+               'seed': rng.randrange(2**31), 'npseed': rng.randrange(2**31), 'alpha': 'huge-steps', 'mal': None, 'long': 'huge-steps'}
 
 
 def corpus():
@@ -88,6 +115,8 @@ def impl(case):
     st = mh.StateTraj(trajs)
     states = [int(s) for s in st.states]
     out = {'states': states}
+    if len(trajs[0]) < 100000:
+        c07.related(trajs, case['lag'], lambda d: mh.msm.estimate_waiting_times(d, case['lag'], case['S'], case['F'], 5))
     try:
         cm, perm = ts._get_cummat(trajs, case['lag'])
         out.update({'cm': [[float(x).hex() for x in r] for r in cm], 'perm': [[int(x) for x in r] for r in perm]})
@@ -109,7 +138,8 @@ def impl(case):
         else:
             d = [float(x) for x in record(k)]
         return d
-    out['us'] = [u.hex() for u in draws(steps)]
+    huge = case.get('long') == 'huge-steps'
+    out['us'] = [] if huge else [u.hex() for u in draws(steps)]
     kw = dict(trajs=trajs, lagtime=case['lag'], start=case['S'], final=case['F'], steps=steps)
 
     def guarded(f):
@@ -122,6 +152,12 @@ def impl(case):
         idxs_final = np.array([st.state_to_idx(s) for s in np.unique(case['F'])])
         out['start'] = int(np.random.choice(idxs_final))
     for name, fn in (('wt', mh.msm.estimate_waiting_times), ('tt', ts.estimate_transition_times)):
+        if huge:
+            if name == 'wt':
+                reseed()
+                lst = guarded(lambda: [int(v) for v in fn(return_list=True, **kw)])
+                out['wt_sorted'] = lst if isinstance(lst, dict) else bool(lst == sorted(lst) and all(v > 0 and v % case['lag'] == 0 for v in lst))
+            continue
         reseed()
         out[name + '_list'] = guarded(lambda: [int(v) for v in fn(return_list=True, **kw)])
         reseed()
@@ -144,7 +180,7 @@ def impl(case):
 
 
 def requests(case):
-    if case.get('long') == 'huge-lag' or case['mal']:
+    if case.get('long') in ('huge-lag', 'huge-steps') or case['mal']:
         return []
     return [[703] + C.enested(G.expand(case)) + [case['lag']]]
 
@@ -164,6 +200,14 @@ def judge(case, ibc, answers):
             continue
         states = r['states']
         n = len(states)
+        if case.get('long') == 'huge-steps':
+            if r.get('wt_sorted') is not True:
+                P('impl-vs-spec', 'waiting times of a %d-step realisation are not positive multiples of the lag in ascending order: %s' % (case['steps'], C.short(r.get('wt_sorted'), 80)))
+            if r['paths'] != r['paths_ref']:
+                a, b = dict((tuple(k), v) for k, v in r['paths']), dict((tuple(k), v) for k, v in r['paths_ref'])
+                bad = [k for k in set(a) | set(b) if a.get(k) != b.get(k)][:2]
+                P('impl-vs-spec', 'msm.estimate_paths over %d steps is not the md pathway extraction of the chain from the same generator state (paths %s differ)' % (case['steps'], bad))
+            continue
         if r.get('hook_local'):
             P('correspondence', 'instrumented private helper no longer matches: %s' % r['hook_local'])
             # what can still be decided without the sampling table
